@@ -14,32 +14,36 @@ PROP = "C15"
 PROP_FILES = ["props/C15.v"]
 TRUSTED = [
     "modelled rather than verified: the file object under OggPage.replace/renumber/find_last is a byte list with explicit "
-    "positions; the effect of `resize_bytes; seek; write` is the splice C11 proves for resize_bytes (lemma "
-    "C15_slot_is_resize_bytes links Model.Ogg.replace_slot to the generated resize_bytes); tied to the implementation on "
-    "BytesIO by the replace/renumber correspondence",
+    "positions; the effect of `resize_bytes; seek; write` is the splice C11 proves for resize_bytes (theorem "
+    "C15_slot_is_resize_bytes links Model.Ogg.replace_slot to the regenerated resize_bytes on the file monad); tied to the "
+    "implementation on BytesIO by the replace/renumber correspondence",
     "Model.Ogg / Model.Crc are hand-written models of mutagen/ogg.py OggPage, tied to /repo only by the correspondence run "
     "(no regeneration); struct.pack/unpack and bytes slicing semantics are part of the model",
     "independent reference reader + bit-serial CRC-32 (poly 0x04C11DB7, MSB first, init 0) in harness/props/c15.py, "
     "validated on every run against pages written by libogg in tests/data/*.ogg|*.spx|*.opus|*.oga",
 ]
 MANIFEST = {
-    "text": "full for the page codec and packetisation: machine-checked theorems over Model.Ogg for every page within the Ogg limits "
-            "(write succeeds, length = size, parses back to the same page and the unread rest, CRC field correct) and for every packet "
-            "list, sequence number, default_size >= 255 and wiggle_room: from_packets terminates, strict to_packets gives back the "
-            "packets, sequence numbers are consecutive, continued = not complete of the predecessor, position = -1 exactly on "
-            "one-packet incomplete pages, every page well-formed hence renderable and parsing back equal -- the <= 255 lacing values part under the "
-            "explicit decidable precondition segments_bounded (the code bounds packets per page, not lacing values: refuted witnesses "
-            "for 240 small + 1 large packet, 256 empty packets, default_size 65025, and non-termination below 255). "
-            "partial for replace: renumber is proved at stream level (pages of the serial renumbered consecutively, all other bytes "
-            "identical) and the slot loop of replace is proved to splice the rendered new pages over the old ones leaving every byte "
-            "between and after them in place; the end-to-end statement combining both for multiplexed files "
-            "(gapless numbering over the whole stream, flags in place, foreign pages identical) is checked by correspondence and the direct "
-            "oracle on synthesised multiplexed files (fewer/equal/more new pages), not by a single theorem",
+    "text": "full: machine-checked theorems over Model.Ogg. Page codec: every page within the Ogg limits (struct ranges, version 0, <= 255 "
+            "lacing values, canonical `complete`) renders, len = size <= 65307, CRC field correct, parses back to the same page and the "
+            "unread rest. Packetisation, for every packet list, sequence number, default_size >= 255 and wiggle_room: from_packets "
+            "terminates, strict to_packets gives back the packets (no bound on the input needed), sequence numbers consecutive, continued "
+            "= not complete of the predecessor, position = -1 exactly on one-packet incomplete pages, no empty page; every page has <= 255 "
+            "lacing values, renders and parses back equal under the explicit decidable precondition segments_bounded "
+            "(len(ps) + (default_size - 29 + chunk_size + max(wiggle_room - 1, 0)) // 255 <= 255) -- without it the statement is false for "
+            "the code as it is (the guard counts packets, not lacing values): refuted witnesses 240 small + 1 large packet, 256 empty "
+            "packets, default_size 65025; below default_size 255 the loop provably never terminates. replace/renumber: renumber on a file "
+            "of rendered well-formed pages renumbers exactly the pages of the serial; replace end to end (byte level C15_replace_spec, page "
+            "level C15_replace_pages, by stream C15_replace_stream_view: other streams' pages byte-identical and in order, edited stream "
+            "gapless from the first old page's number for fewer/equal/more new pages, first/continued on the first and last/complete on "
+            "the last new page); one slot iteration is proved equal to the regenerated _util.resize_bytes + seek + write (C11)",
     "note": "Model tied by correspondence (not regenerated). The model cannot exhibit: UnboundLocalError of `size` on an incomplete page "
-            "without packets (returns 27); negative default_size (Python slices from the end); file-object faults during replace (C06/C19). "
+            "without packets (returns 27); negative default_size (Python slices from the end); file-object faults during replace (C06/C19); "
+            "find_last is modelled and corresponded but has no theorem. The replace theorems assume the pages between/after the old pages "
+            "are well-formed rendered pages and that the prepared new pages render. "
             "Known finding: from_packets produces unrenderable pages (> 255 lacing values) for inputs outside segments_bounded.",
     "technique": "Coq proofs over a hand-written Gallina model (invariant on the accumulator page of the from_packets loop; lacing "
-                 "encode/decode lemma) + correspondence through the extracted OCaml model + direct oracle with an independent reader",
+                 "encode/decode lemma; list-splice reasoning for replace) + correspondence through the extracted OCaml model + direct "
+                 "oracle with an independent reader + vm_compute cross-check",
     "design_ref": "DESIGN.md section 5, C15; Appendix B Ogg",
 }
 RULE = ("packet lists: counts 0..300 x sizes on the lattice {0,1,254,255,256,509,510,511,k*255,4079,4080,4081,2047,2048,2049,65025,"
@@ -863,17 +867,23 @@ def corr_replace(ctx, O, data, spec, pages, rel, fixed=None):
             nnew = nold + rng.choice([1, 2, 5])
         else:
             nnew = rng.choice([1, 2, 3])
-        fixed = {"serial": serial, "a": a, "b": b, "nnew": nnew, "pseed": rng.randrange(1 << 30)}
+        fixed = {"serial": serial, "a": a, "b": b, "nnew": nnew, "pseed": rng.randrange(1 << 30), "chain": rng.random() < 0.35}
     serial, a, b, nnew = fixed["serial"], fixed["a"], fixed["b"], fixed["nnew"]
     mine_idx = [i for i, p in enumerate(pages) if p.serial == serial]
     old_pages = [pages[i] for i in mine_idx[a:b]]
     # nnew pages: one packet per page of > 255 bytes with default_size 255 would split; build pages directly from packets
     prng = random.Random(fixed["pseed"])
-    new_packets = [bytes([0xC0 | (j & 15)]) * prng.choice([1, 40, 200, 254]) for j in range(nnew)]
-    new_pages = []
-    for j, pk in enumerate(new_packets):
-        p = O.OggPage(); p.packets = [pk]; p.position = 5000 + j
-        new_pages.append(p)
+    if fixed.get("chain"):
+        # one packet spread over nnew pages by from_packets (continued / incomplete pages inside the new run)
+        new_packets = [bytes([0xD0 | (fixed["pseed"] & 15)]) * ((nnew - 1) * 255 + prng.choice([1, 100, 254]))]
+        new_pages = O.OggPage.from_packets(list(new_packets), 0, 255, 0)
+        nnew = len(new_pages)
+    else:
+        new_packets = [bytes([0xC0 | (j & 15)]) * prng.choice([1, 40, 200, 254]) for j in range(nnew)]
+        new_pages = []
+        for j, pk in enumerate(new_packets):
+            p = O.OggPage(); p.packets = [pk]; p.position = 5000 + j
+            new_pages.append(p)
     new_fields = [page_fields(p) for p in new_pages]
     f = io.BytesIO(data)
     mine = file_result(lambda: O.OggPage.replace(f, old_pages, new_pages), f)
@@ -1004,12 +1014,12 @@ def run(ctx):
     O = _ogg()
     crc_against_libogg(ctx)
     if ctx.thorough:
-        cases = paging_cases(ctx, 260, 220, 14, [65025, 65307, 65536, 70000])
-        npages, ntp, npres, nfiles = 400, 500, 200, 60
+        cases = paging_cases(ctx, 500, 700, 30, [65025, 65307, 65536, 70000])
+        npages, ntp, npres, nfiles = 1500, 2000, 600, 220
     else:
         cases = paging_cases(ctx, 60, 60, 4, [65307, 70000])
         npages, ntp, npres, nfiles = 90, 150, 50, 14
-    big_budget = 6 if ctx.thorough else 3
+    big_budget = 8 if ctx.thorough else 3
     for sizes, ds, wr, tag in cases:
         total = sum(sizes)
         full = True
